@@ -23,6 +23,10 @@ mod c07;
 mod c08;
 mod c09;
 mod c11;
+mod c12;
+mod c13;
+mod c14;
+mod c15;
 
 use runner::Tier;
 
@@ -41,6 +45,10 @@ fn dispatch_replay(prop: &str, w: &serde_json::Value) -> Vec<(String, String)> {
         "C09" => c09::replay(w),
         "C10" => c10::replay(w),
         "C11" => c11::replay(w),
+        "C12" => c12::replay(w),
+        "C13" => c13::replay(w),
+        "C14" => c14::replay(w),
+        "C15" => c15::replay(w),
         "C16" => c16::replay(w),
         "C17" => c17::replay(w),
         _ => vec![],
@@ -92,6 +100,10 @@ fn main() {
         "C09" => c09::run(tier),
         "C10" => c10::run(tier),
         "C11" => c11::run(tier),
+        "C12" => c12::run(tier),
+        "C13" => c13::run(tier),
+        "C14" => c14::run(tier),
+        "C15" => c15::run(tier),
         "C16" => c16::run(tier),
         "C17" => c17::run(tier),
         other => {
